@@ -3,9 +3,9 @@ import DashLive.Driver.Util
 /-! Line-protocol channels of the validator model (C18).
 
 Tokens (no blanks inside a token; `-` = absent / empty):
-* ctx  `video,optEnc,infoEnc,ivKnown,hasMoov,dashTs,mediaTs|-,startNumber,tmplDuration|-,ranged` (booleans 0/1)
+* ctx  `video,optEnc,infoEnc,ivKnown,hasMoov,dashTs,mediaTs|-,startNumber,tmplDuration|-,ranged,hasTrex` (booleans 0/1)
 * exp  `expSeq|-,expDecode|-,expDur|-,tol,pto`
-* obs  `status,ctypeOk,nAtoms,hasMoof,hasMdat,emsgOk,seq,tfdt,base,dataOffset,mdatPos,mdatHdr,mdatSize;samples;senc;saio`
+* obs  `status,ctypeOk,nAtoms,hasMoof,hasMdat,emsgOk,seq,tfdt,base,dataOffset,mdatPos,mdatHdr,mdatSize,needsTrex;samples;senc;saio`
        samples `size:dur:cto/…` or `-`; senc `pos:off:count` or `-`; saio `none` or comma list or `-` (empty)
 * channels
   `vseg <ctx> <exp> <obs>` → error kinds joined by `,` (or `-`)
@@ -41,7 +41,8 @@ def segErrName : SegErr → String
   | .trunLast => "trunLast" | .noMoof => "noMoof" | .sencMissing => "sencMissing"
   | .saioMissing => "saioMissing" | .saioCount => "saioCount" | .saioOffset => "saioOffset"
   | .sencCount => "sencCount" | .sencInClear => "sencInClear" | .seqNum => "seqNum"
-  | .decodeTime => "decodeTime" | .moovMissing => "moovMissing" | .ptsNegative => "ptsNegative"
+  | .decodeTime => "decodeTime" | .moovMissing => "moovMissing" | .trexMissing => "trexMissing"
+  | .ptsNegative => "ptsNegative"
   | .ptsDuplicate => "ptsDuplicate" | .zeroTimescale => "zeroTimescale" | .duration => "duration"
   | .chain => "chain"
 
@@ -49,11 +50,11 @@ def showList (l : List String) : String := if l.isEmpty then "-" else joinWith "
 
 def parseCtx (s : String) : Option RepCtx :=
   match s.splitOn "," with
-  | [v, oe, ie, iv, mv, dts, mts, sn, td, rg] => do
+  | [v, oe, ie, iv, mv, dts, mts, sn, td, rg, tx] => do
     some { video := ← pBool v, optEncrypted := ← pBool oe, infoEncrypted := ← pBool ie,
            ivKnown := ← pBool iv, hasMoov := ← pBool mv, dashTs := ← parseNat dts,
            mediaTs := ← optNat mts, startNumber := ← parseInt sn, tmplDuration := ← optNat td,
-           ranged := ← pBool rg }
+           ranged := ← pBool rg, hasTrex := ← pBool tx }
   | _ => none
 
 def parseExp (s : String) : Option SegExp :=
@@ -72,7 +73,7 @@ def parseObs (s : String) : Option SegObs :=
   match s.splitOn ";" with
   | [hd, smp, senc, saio] =>
     match hd.splitOn "," with
-    | [st, ct, na, mf, md, em, sq, tf, bs, dof, mp, mh, ms] => do
+    | [st, ct, na, mf, md, em, sq, tf, bs, dof, mp, mh, ms, nt] => do
       let samples ← if smp == "-" then some [] else (smp.splitOn "/").mapM parseSample
       let sencV : Option (Nat × Nat × Nat) ← if senc == "-" then some none else
         match senc.splitOn ":" with
@@ -83,7 +84,8 @@ def parseObs (s : String) : Option SegObs :=
              hasMoof := ← pBool mf, hasMdat := ← pBool md, emsgOk := ← pBool em,
              seq := ← parseNat sq, tfdt := ← parseNat tf, baseDataOffset := ← parseInt bs,
              dataOffset := ← parseInt dof, samples := samples, mdatPos := ← parseNat mp,
-             mdatHdr := ← parseNat mh, mdatSize := ← parseNat ms, senc := sencV, saio := saioV }
+             mdatHdr := ← parseNat mh, mdatSize := ← parseNat ms, senc := sencV, saio := saioV,
+             needsTrex := ← pBool nt }
     | _ => none
   | _ => none
 
